@@ -8,7 +8,8 @@ LEAN_DIR = os.path.join(ROOT, "lean")
 DRIVER = os.path.join(LEAN_DIR, ".lake", "build", "bin", "driver")
 WORK = os.path.join(ROOT, "work")
 REPLAYS = os.path.join(ROOT, "replays")
-EVIDENCE = os.path.join(ROOT, "evidence")
+# mutation runs (tools/run_seeded.py) write their evidence elsewhere so that /verif/evidence always describes /repo itself
+EVIDENCE = os.environ.get("VERIF_EVIDENCE_DIR") or os.path.join(ROOT, "evidence")
 
 MATRIX = [(1, 1), (1, 4), (2, 3), (2, 5), (3, 2), (4, 1), (4, 4), (4, 8), (5, 5), (7, 2), (8, 1), (8, 3), (12, 4), (16, 1), (16, 2),
           (16, 3), (16, 8), (24, 2), (32, 4), (48, 3), (64, 2), (255, 2)]
